@@ -21,6 +21,9 @@ CHAIN4_OUTER = {"quick": (V("x"), C(2)), "thorough": (V("x"), C(2), C(0), C(1))}
 CHAIN4_LEAVES = {"quick": (V("x"), C(0), C(1), C(2)),
                  "thorough": (V("x"), V("y"), C(0), C(1), C(2))}
 CHAIN4_POWERS = (2, -1, 0)
+BIGPOW_EXPONENTS = {"quick": range(4, 10), "thorough": range(4, 14)}
+BIGPOW_NC_MAX = 9          # distribute(commutative=False) keeps all 2**n terms: only up to here
+HISTORY_POOL = {"quick": 6, "thorough": 12}
 POLY_MAX_EXP = 3                                            # exponents 0..3 in the poly4 family
 MAX_FLOAT_DENOM = 4096                                      # decoding of folded float constants
 FLOAT_DECODE_TOL = Fraction(1, 10 ** 9)
@@ -385,6 +388,57 @@ def rf_chain4(tier):
                 for tag in ("Sum", "Product"):
                     yield (tag, T(a, m))
                     yield (tag, T(m, a))
+
+
+def bigpow(tier):
+    """Larger literal powers of small sums (alone, times a variable, and -- thorough, exponents up
+    to BIGPOW_NC_MAX -- minus the next lower power)."""
+    x, y = V("x"), V("y")
+    bases = [("Sum", T(x, C(1))), ("Sum", T(x, y)), ("Sum", T(x, C(-1))),
+             ("Sum", T(("Product", T(C(2), x)), y))]
+    for b in bases:
+        for n in BIGPOW_EXPONENTS[tier]:
+            yield ("Power", b, C(n))
+            yield ("Product", T(x, ("Power", b, C(n))))
+            if tier != "quick" and n <= BIGPOW_NC_MAX:
+                yield ("Sum", T(("Power", b, C(n)),
+                                ("Product", T(C(-1), ("Power", b, C(n - 1))))))
+
+
+def max_exponent(s):
+    return max((c[2][1] for c in walk(s) if c[0] == "Power" and c[2][0] == "int"), default=0)
+
+
+def history_pool(tier):
+    """Inputs of the call histories; y is the variable that some configurations declare a
+    parameter (coefficient)."""
+    x, y = V("x"), V("y")
+    sxy = ("Sum", T(y, x))
+    pool = [
+        ("Product", T(("Sum", T(y, C(1))), ("Sum", T(x, C(2))))),
+        ("Sum", T(("Product", T(sxy, sxy)), ("Product", T(y, x)))),
+        ("Sum", T(("Product", T(y, x)), ("Product", T(C(2), x)), y)),
+        ("Power", ("Sum", T(x, y)), C(2)),
+        ("Sum", T(("Product", T(C(2), x)), ("Sum", T(x, C(0))), C(1), C(2))),
+        ("Sum", T(x, ("Quotient", y, x))),
+        ("Product", T(("Product", T(x, y)), C(1), ("Sum", T(y, C(2), C(3))))),
+        ("Sum", T(("Product", T(y, y)), ("Product", T(C(3), y, x)), ("Product", T(x, x)))),
+        ("Product", T(y, ("Power", ("Sum", T(x, C(1))), C(2)))),
+        ("Sum", T(("Power", y, C(2)), ("Product", T(("Power", y, C(-1)), x)), y)),
+        ("Quotient", ("Sum", T(x, y)), ("Sum", T(y, C(1)))),
+        ("Sum", T(y, y, x)),
+    ]
+    return pool[:HISTORY_POOL[tier]]
+
+
+def rename(s, mapping):
+    if s[0] == "Variable":
+        return ("Variable", ("str", mapping.get(s[1][1], s[1][1])))
+    ch = spec_children(s)
+    if not ch:
+        return s
+    from vf.spec import rebuild
+    return rebuild(s, [rename(c, mapping) for c in ch])
 
 
 def poly4(tier):
